@@ -56,7 +56,7 @@ ASSUMPTIONS = {}
 EXTRA_CHECKS = {}
 
 
-def _bounded(pid, script='df_enum.py', what='real accumulator vs pandas on the concatenated prefix disagree'):
+def _bounded(pid, script='df_enum.py', what='real accumulator vs pandas on the concatenated prefix disagree', as_error=False):
     """BOUNDED stand-in next to the proofs of the dataframe properties: the real accumulators with real pandas over an
     enumerated space (bounded/df_enum.py).  Reported under coverage.bounded, never counted in obligations/discharged;
     a mismatch is a violation with the concrete failing input."""
@@ -70,14 +70,19 @@ def _bounded(pid, script='df_enum.py', what='real accumulator vs pandas on the c
             d = json.loads(p.stdout)
         except Exception as e:
             return {'coverage': {'bounded': {'error': repr(e)}}, 'violations': [], 'errors': ['bounded enumeration %s failed: %r' % (script, e)]}
-        viol = []
+        viol, errs = [], []
         for f in d['failures']:
-            viol.append({'name': 'bounded/%s' % f.get('op', '?'), 'input': f,
-                         'detail': what})
+            if as_error:
+                # an ASSUMED contract of a dependency is not met by the installed library: the proofs rest on a false assumption;
+                # that is a broken check (exit 3), not a violation of the property by streamz
+                errs.append('%s: %s (%s)' % (what, f.get('op', '?'), json.dumps(f, default=repr)[:400]))
+            else:
+                viol.append({'name': 'bounded/%s' % f.get('op', '?'), 'input': f,
+                             'detail': what})
         return {'coverage': {'bounded': {'label': 'BOUNDED (not proof)', 'space': d['space'], 'cases': d['cases'],
                                          'distinct_cases': d['distinct'], 'operations': d['ops'], 'failures': len(d['failures']),
                                          'samples': d['samples']}},
-                'violations': viol, 'errors': []}
+                'violations': viol, 'errors': errs}
     return run
 
 
@@ -89,3 +94,7 @@ for _pid in ('C06', 'C07', 'C11', 'C12'):
 for _pid in ('C13', 'C08', 'C17', 'C10', 'C04'):
     EXTRA_CHECKS[_pid] = [_bounded(_pid, 'pure_enum.py', 'the real helper disagrees with its meaning on this concrete input')]
 EXTRA_CHECKS['C01'] = [_bounded('C01', 'pure_enum.py', 'the real helper disagrees with its list-level meaning on this concrete input')]
+# bounded conformance of the ASSUMED library contracts (tornado Queue / Condition / timers, asyncio.Queue, OrderedWeakrefSet, zict.LRU)
+# against the installed libraries; a mismatch is a checker error (a false assumption), never a violation
+for _pid in ('C01', 'C02', 'C03', 'C08', 'C13', 'C14', 'C15', 'C18'):
+    EXTRA_CHECKS.setdefault(_pid, []).append(_bounded(_pid, 'lib_conformance.py', 'assumed contract of a dependency is not met by the installed library', as_error=True))
